@@ -17,6 +17,7 @@ import (
 	"net"
 	"os"
 	"path/filepath"
+	"runtime"
 	"strings"
 	"sync"
 	"testing"
@@ -25,6 +26,7 @@ import (
 	"go.minekube.com/gate/pkg/edition/java/lite/config"
 
 	"verif/harness/literig"
+	"verif/harness/sched"
 	"verif/harness/tracefmt"
 )
 
@@ -48,6 +50,8 @@ type stats struct {
 	ByOptions  map[string]int `json:"by_options"`
 	Rewritten  int            `json:"cases_with_rewrite_options_and_matching_host"`
 	Big        int            `json:"big_streams"`
+	Groups     int            `json:"concurrent_groups"`
+	Held       int            `json:"connections_held_at_fw_updated"`
 	ClientB    int64          `json:"client_bytes"`
 	BackendB   int64          `json:"backend_bytes"`
 	Samples    []any          `json:"samples"`
@@ -103,10 +107,19 @@ func TestForward(t *testing.T) {
 	bigEvery := tracefmt.EnvInt("VERIF_BIG_EVERY", 40)
 	bigSize := tracefmt.EnvInt("VERIF_BIG_SIZE", 1<<16)
 
-	for ci, tc := range cases {
+	var stMu sync.Mutex
+	bar := &barrier{}
+	ctl := sched.New(nil)
+	ctl.OnEvent = bar.onEvent
+	ctl.Install()
+	defer ctl.Uninstall()
+
+	runCase := func(ci int, tc tcase, rng *rand.Rand) {
 		if tc.Next == 3 && tc.Proto < 766 {
+			stMu.Lock()
 			st.Skipped++ // transfer intent does not exist before 1.20.5
-			continue
+			stMu.Unlock()
+			return
 		}
 		bhName := []string{"localhost", "127.0.0.1"}[ci%2]
 		// the host universe names the backend "back.ex": use the real backend host name there
@@ -120,7 +133,8 @@ func TestForward(t *testing.T) {
 
 		be, err := literig.Listen("127.0.0.1:0")
 		if err != nil {
-			t.Fatal(err)
+			t.Error(err)
+			return
 		}
 		big := bigEvery > 0 && ci%bigEvery == bigEvery-1
 		backLen := rng.Intn(3000)
@@ -131,7 +145,9 @@ func TestForward(t *testing.T) {
 		if big {
 			backLen = bigSize/2 + rng.Intn(bigSize/2)
 			restLen = bigSize/2 + rng.Intn(bigSize/2)
+			stMu.Lock()
 			st.Big++
+			stMu.Unlock()
 		}
 		back := make([]byte, backLen)
 		rng.Read(back)
@@ -192,7 +208,8 @@ func TestForward(t *testing.T) {
 		}
 		rig, err := literig.Start(literig.NewConfig([]config.Route{route}, 5*time.Second))
 		if err != nil {
-			t.Fatal(err)
+			t.Error(err)
+			return
 		}
 
 		// handshake payload by shape
@@ -220,7 +237,8 @@ func TestForward(t *testing.T) {
 		t0 := time.Now().Unix()
 		cl, err := rig.Dial()
 		if err != nil {
-			t.Fatal(err)
+			t.Error(err)
+			return
 		}
 		la := cl.LocalAddr().(*net.TCPAddr)
 		var wwg sync.WaitGroup
@@ -228,7 +246,7 @@ func TestForward(t *testing.T) {
 		go func() {
 			defer wwg.Done()
 			switch tc.Delivery {
-			case "one-segment":
+			case "one-segment", "grouped":
 				_, _ = cl.Write(append(append([]byte{}, frame...), rest...))
 			case "handshake-first":
 				_, _ = cl.Write(frame)
@@ -294,6 +312,8 @@ func TestForward(t *testing.T) {
 			"rhead": rhead, "rdig": rdig, "bhead": bhead, "bdig": bdig,
 			"khead": khead, "kdig": kdig, "chead": chead, "cdig": cdig,
 			"rlen": len(rest), "blen": len(got), "klen": len(back), "clen": len(recv)})
+		stMu.Lock()
+		defer stMu.Unlock()
 		st.Cases++
 		st.ByShape[tc.Shape]++
 		st.ByDelivery[tc.Delivery]++
@@ -319,11 +339,110 @@ func TestForward(t *testing.T) {
 				"backend_received_hex": hex.EncodeToString(got), "client_sent_after_handshake": len(rest)})
 		}
 	}
+
+	// cases with delivery "grouped" run three at a time, each through its own proxy, while the
+	// forwarding goroutines are held at fw.updated (after the handshake was re-encoded, before
+	// it is written to the backend) until all of the group's rewriting connections got there
+	runGroup := func(idx []int) {
+		n := 0
+		for _, ci := range idx {
+			if rewrites(cases[ci]) && !(cases[ci].Next == 3 && cases[ci].Proto < 766) {
+				n++
+			}
+		}
+		bar.arm(n)
+		prev := runtime.GOMAXPROCS(1) // one P: the goroutines share its sync.Pool caches
+		var wg sync.WaitGroup
+		for _, ci := range idx {
+			ci, r := ci, rand.New(rand.NewSource(rng.Int63()))
+			wg.Add(1)
+			go func() { defer wg.Done(); runCase(ci, cases[ci], r) }()
+		}
+		wg.Wait()
+		runtime.GOMAXPROCS(prev)
+		bar.disarm()
+		stMu.Lock()
+		st.Groups++
+		stMu.Unlock()
+	}
+	var group []int
+	for ci, tc := range cases {
+		if tc.Delivery == "grouped" {
+			group = append(group, ci)
+			if len(group) == 3 {
+				runGroup(group)
+				group = nil
+			}
+			continue
+		}
+		runCase(ci, tc, rand.New(rand.NewSource(rng.Int63())))
+	}
+	if len(group) > 0 {
+		runGroup(group)
+	}
 	if err := tw.Close(); err != nil {
 		t.Fatal(err)
 	}
+	st.Held = bar.held
 	if err := tracefmt.WriteJSON("stats.json", st); err != nil {
 		t.Fatal(err)
+	}
+}
+
+// rewrites reports whether the route options make lite re-encode this case's handshake
+// (steering only: it decides how many connections the barrier waits for).
+func rewrites(tc tcase) bool {
+	h := make([]byte, len(tc.Host))
+	for i, c := range tc.Host {
+		h[i] = byte(c)
+	}
+	hs := string(h)
+	name := strings.Trim(strings.SplitN(strings.SplitN(hs, "\x00", 2)[0], "///", 2)[0], ".")
+	return (tc.Mvh && !strings.EqualFold(name, "back.ex")) || (tc.Tcps && strings.Contains(hs, "///"))
+}
+
+// barrier holds forwarding goroutines at fw.updated until n of them have arrived.
+type barrier struct {
+	mu      sync.Mutex
+	n, got  int
+	release chan struct{}
+	held    int
+}
+
+func (b *barrier) arm(n int) {
+	b.mu.Lock()
+	b.n, b.got, b.release = n, 0, make(chan struct{})
+	b.mu.Unlock()
+}
+
+func (b *barrier) disarm() {
+	b.mu.Lock()
+	b.n, b.release = 0, nil
+	b.mu.Unlock()
+}
+
+func (b *barrier) onEvent(_ string, name string, _ []any) {
+	if name != "fw.updated" {
+		return
+	}
+	b.mu.Lock()
+	rel := b.release
+	if rel == nil || b.n < 2 {
+		b.mu.Unlock()
+		return
+	}
+	b.got++
+	b.held++
+	if b.got >= b.n {
+		close(rel)
+		b.release = nil
+		b.mu.Unlock()
+		return
+	}
+	b.mu.Unlock()
+	select {
+	case <-rel:
+	case <-time.After(3 * time.Second):
 	}
 }
 
